@@ -167,7 +167,17 @@ def parse_tags(text):
     # assert isinstance(text, unicode)
     if not text:
         return []
-    return Parser(variant="tags").parse_tags(text)
+    parser = Parser(variant="tags")
+    tags = []
+    for line_number, line in enumerate(text.splitlines(), 1):
+        parser.line = line_number
+        line = line.strip()
+        if not line or line.startswith("#"):
+            continue
+        if not line.startswith("@"):
+            raise ParserError(u"tag expected: %s" % line, line_number)
+        tags.extend(parser.parse_tags(line))
+    return tags
 
 
 # -----------------------------------------------------------------------------
